@@ -20,7 +20,7 @@ import sys
 import tempfile
 import types
 from datetime import datetime
-from os import close
+from os import close, fsdecode
 from struct import pack, unpack
 
 import xdis.marsh
@@ -107,7 +107,8 @@ def check_object_path(path) -> str:
 
 def is_pypy(magic_int, filename):
     # PyPy 3.8 starts pyston's trend of using Python's magic numbers.
-    if magic_int in (3413, 3414) and filename.endswith("pypy38.pyc"):
+    # The file name can be bytes or an os.PathLike object: open() accepts those too.
+    if magic_int in (3413, 3414) and fsdecode(filename).endswith("pypy38.pyc"):
         return True
     return magic_int in ((62211 + 7, 3180 + 7) + PYPY3_MAGICS)
 
